@@ -3,6 +3,7 @@ are recorded and validated under the property's obligation."""
 
 KINDS = {
     "seq": ["arraylist", "singlylinkedlist", "doublylinkedlist"],
+    "map": ["hashmap", "treemap", "linkedhashmap", "redblacktree", "avltree", "btree", "hashbidimap", "treebidimap"],
     "que": ["arraystack", "linkedliststack", "arrayqueue", "linkedlistqueue", "circularbuffer"],
 }
 
@@ -20,6 +21,9 @@ DEFAULT_RULE = ("events = public calls executed on the real containers and valid
 PLAN = {
     "C03": dict(level="model_checking", design="6 C03",
                 traces=[dict(job="seq", spec="TraceSeq")],
+                mc=[]),
+    "C01": dict(level="model_checking", design="6 C01",
+                traces=[dict(job="map", spec="TraceMap")],
                 mc=[]),
     "C05": dict(level="model_checking", design="6 C05",
                 traces=[dict(job="que", spec="TraceQue")],
